@@ -12,6 +12,7 @@ import (
 	"os"
 	"os/exec"
 	"runtime"
+	"runtime/debug"
 	"sort"
 	"strings"
 	"sync"
@@ -264,6 +265,7 @@ func Main(cfg *Config) {
 	nworkers := flag.Int("workers", 0, "worker processes (default: cores)")
 	only := flag.String("scenario", "", "only this scenario")
 	histWorker := flag.String("histworker", "", "internal: engine-B worker")
+	free := flag.Int("free", 0, "free-running pass: run every scenario's threads n times as ordinary goroutines (binary built with -race), no exploration")
 	flag.Parse()
 	if *worker {
 		workerMain(cfg)
@@ -301,6 +303,10 @@ func Main(cfg *Config) {
 		if (s.Tiers == "" || s.Tiers == *tier) && (*only == "" || *only == s.Name) {
 			scens = append(scens, s)
 		}
+	}
+	if *free > 0 {
+		freeRun(cfg, scens, *free)
+		return
 	}
 	deadline := time.Now().Add(time.Duration(*budget) * time.Second)
 	if len(cfg.HistScopes) > 0 {
@@ -365,6 +371,53 @@ func Main(cfg *Config) {
 	}
 	if rep.Failed() {
 		os.Exit(1)
+	}
+}
+
+// freeRun is the separate free-running pass that goes with the cooperative scheduler: the scheduler's
+// hand-offs are happens-before edges, so a race detector sees nothing under it. Here the same
+// harness bodies run as ordinary goroutines with no scheduler (the shims are the original
+// primitives), in a binary built with -race; unsynchronised accesses inside pd that the
+// scheduling points would not interleave show up as race reports (run.sh <ID> race collects them).
+// Nothing is decided here: no oracle is evaluated and the exit code is 0.
+func freeRun(cfg *Config, scens []*Scenario, n int) {
+	sched.FreeRunning = true
+	for _, sc := range scens {
+		done, stuck := 0, 0
+		for i := 0; i < n; i++ {
+			inst := sc.Setup()
+			var wg sync.WaitGroup
+			start := make(chan struct{})
+			for _, body := range inst.Threads {
+				wg.Add(1)
+				go func(b func()) {
+					defer wg.Done()
+					defer func() {
+						if p := recover(); p != nil && os.Getenv("VERIF_FREE_DEBUG") != "" {
+							fmt.Fprintf(os.Stderr, "free-run %s: body panicked: %v\n%s\n", sc.Name, p, debug.Stack())
+						}
+					}()
+					<-start // all bodies are released together
+					b()
+				}(body)
+			}
+			close(start)
+			fin := make(chan struct{})
+			go func() { wg.Wait(); close(fin) }()
+			select {
+			case <-fin:
+				done++
+				if inst.Cleanup != nil {
+					inst.Cleanup()
+				}
+			case <-time.After(20 * time.Second):
+				stuck++ // bodies that wait for the scheduler's ordering; their goroutines are left behind
+			}
+			if stuck >= 2 {
+				break
+			}
+		}
+		fmt.Printf("%s free-run %-28s runs=%d completed=%d stuck=%d\n", cfg.Property, sc.Name, done+stuck, done, stuck)
 	}
 }
 
